@@ -433,9 +433,9 @@ package route
 //@   ensures [assumed] (err == nil) == accepts(old(bufOf[in]))
 //@   ensures [assumed] err == nil ==> (len(defs) == 1 && defs[0].Cmd == "route add") == singleAdd(old(bufOf[in]))
 //@   ensures [assumed] forall x *bytes.Buffer :: x != in ==> bufOf[x] == old(bufOf[x])
-//@   ensures [assumed] @C14 err == nil && len(defs) == 1 ==> defs[0].Service == defService(old(bufOf[in])) && defs[0].Src == defSrc(old(bufOf[in])) && defs[0].Dst == defDst(old(bufOf[in])) && defs[0].Weight == defWeight(old(bufOf[in]))
-//@   ensures [assumed] @C14 err == nil && len(defs) == 1 ==> len(defs[0].Tags) == defTagsLen(old(bufOf[in])) && forall i int :: 0 <= i && i < len(defs[0].Tags) ==> defs[0].Tags[i] == defTag(old(bufOf[in]), i)
-//@   ensures [assumed] @C14 err == nil && len(defs) == 1 ==> len(defs[0].Opts) == defOptsLen(old(bufOf[in])) && forall k string :: hasKey(defs[0].Opts, k) == defOptHas(old(bufOf[in]), k) && (hasKey(defs[0].Opts, k) ==> defs[0].Opts[k] == defOpt(old(bufOf[in]), k))
+//@   ensures [assumed] @C01,C14 err == nil && len(defs) == 1 ==> defs[0].Service == defService(old(bufOf[in])) && defs[0].Src == defSrc(old(bufOf[in])) && defs[0].Dst == defDst(old(bufOf[in])) && defs[0].Weight == defWeight(old(bufOf[in]))
+//@   ensures [assumed] @C01,C14 err == nil && len(defs) == 1 ==> len(defs[0].Tags) == defTagsLen(old(bufOf[in])) && forall i int :: 0 <= i && i < len(defs[0].Tags) ==> defs[0].Tags[i] == defTag(old(bufOf[in]), i)
+//@   ensures [assumed] @C01,C14 err == nil && len(defs) == 1 ==> len(defs[0].Opts) == defOptsLen(old(bufOf[in])) && forall k string :: hasKey(defs[0].Opts, k) == defOptHas(old(bufOf[in]), k) && (hasKey(defs[0].Opts, k) ==> defs[0].Opts[k] == defOpt(old(bufOf[in]), k))
 //@   // success means the WHOLE text was read: the scanner stopped at the end of the input, not on an error of its own
 //@   // (it gives up on a line longer than its limit - without this the rest of the configuration was dropped silently)
 //@   at "return defs, nil" assert @C02 !scanFailed[scanner]
